@@ -104,9 +104,28 @@ def array_values(universe, adesc) -> np.ndarray:
     return ndarray_from_fn(list(adesc["letters"]), uitems(universe), value_fn(universe, adesc), dtype)
 
 
+def with_memory_layout(values: np.ndarray, mem) -> np.ndarray:
+    """Same entries under the same indices, different memory layout: 'F' = Fortran order, 'T' =
+    transposed view of a C array, 'S' = strided view into a larger buffer.  numpy results of einsum
+    re-orderings have such layouts, and users pass them too."""
+    if mem in (None, "C") or values.ndim < 1:
+        return values
+    if mem == "F":
+        return np.asfortranarray(values)
+    if mem == "T":
+        return np.ascontiguousarray(values.T).T
+    if mem == "S":
+        big = np.zeros(tuple(2 * n for n in values.shape), dtype=values.dtype)
+        view = big[tuple(slice(0, None, 2) for _ in values.shape)]
+        view[...] = values
+        return view
+    raise ValueError(mem)
+
+
 def array(universe, adesc, cls=None, **kw) -> fd.FlodymArray:
     cls = cls or fd.FlodymArray
-    return cls(dims=dimset(universe, adesc["letters"]), values=array_values(universe, adesc), **kw)
+    vals = with_memory_layout(array_values(universe, adesc), adesc.get("mem"))
+    return cls(dims=dimset(universe, adesc["letters"]), values=vals, **kw)
 
 
 def marr(universe, adesc) -> MArr:
